@@ -1,6 +1,8 @@
 import FqModel.Proto
 import FqModel.Bits
 import FqModel.Gaps
+import FqModel.GapsTree
+import Drv.C04Tree
 /-! driver for C04
 
   `gaps <total> [@note]* <r>*` TAB `<g>*|-`
@@ -20,9 +22,19 @@ import FqModel.Gaps
   `gapbits [@note]* <hex window> <bit offset in window> <nbits> <gap len>` TAB `<reader len> <hex of the bits read>`
       the content of a gap field (bits read from its own reader) against the input bits of its range.
 
+  `prog <force> <gaps> <off> <len> <arr> <nbits> <hex> [ items ]` TAB `T <tree>` | `N` | `P <de|io>`
+      run "prog" (cases of harness c03): a random decoder program over the public decode.D API, run by the real
+      decode.Decode; the observation is the dump of the real tree.  The tree-level theorems of Props/C04.lean are
+      about `FqModel.Tree.run`; here (a) their STATEMENTS are evaluated on the IMPLEMENTATION's tree with the very
+      definitions the theorems use (`gapFields`, `fieldLeaves`, `localLeaves`, `decodeRange`): the root's gap fields
+      must be `ranges.Gaps` of the leaves, every bit of the decode range in a leaf / a gap field / a one-bit hole, no
+      gap bit in a leaf, gaps inside the range; without FillGaps no gap field at the root; an escaped IOError panic
+      contradicts `fillgaps_panic_only_duplicate_name`; (b) the model's tree is compared with the implementation's
+      as far as the theorems look at it: leaves and gap fields of the root's buffer as multisets, outcome class.
+
   Words that start with `@` are annotations (which decode produced the case) and are ignored.
 -/
-open FqModel FqModel.Gaps FqModel.Proto
+open FqModel FqModel.Gaps FqModel.Proto FqModel.GapsTree
 
 def parseRanges (ws : List String) : Option (List Range) :=
   if ws == ["-"] then some [] else ws.mapM parseRange
@@ -158,8 +170,54 @@ def gapbitsVerdict (hexw soff snb sgl : String) (obs : List String) : String :=
     | _ => "BADOP obs"
   | _, _, _, _ => "BADOP parse"
 
+def sortRanges (l : List Range) : List (Int × Int) :=
+  (l.map (fun r => (r.start, r.len))).toArray.qsort (fun a b => a.1 < b.1 || (a.1 == b.1 && a.2 < b.2)) |>.toList
+
+def withDiv (v div : String) : String :=
+  if div.isEmpty then v
+  else if v == "OK" then "DIVERGE " ++ div
+  else if (v.splitOn " ;DIVERGE").length > 1 || v.startsWith "DIVERGE" then v
+  else v ++ " ;DIVERGE " ++ div
+
+/-- `prog`: see the header -/
+def progVerdict (cfg : Tree.Cfg) (input : Bits) (obs : List String) : String :=
+  let m := (Tree.run cfg input).out
+  let (s, l) := decodeRange cfg input
+  match obs with
+  | "T" :: ts =>
+    match C04Tree.parseT ts with
+    | some (t, []) =>
+      let div := match m with
+        | .tree tm =>
+          if sortRanges (fieldLeaves tm) != sortRanges (fieldLeaves t) then
+            s!"model=leaves {showRanges (fieldLeaves tm)}"
+          else if sortRanges (gapFields tm) != sortRanges (gapFields t) then
+            s!"model=gapfields {showRanges (gapFields tm)}"
+          else ""
+        | .noValue => "model=N"
+        | .panic _ => "model=P"
+      if cfg.fillGaps then
+        -- the flat case this tree induces: total 0:l, the leaves relative to the decode range, fq's gap fields
+        -- (in the order of the tree: ascending for a sorted struct root and for appended gap fields alike)
+        withDiv (gapsVerdict true ⟨0, l⟩ (localLeaves s t) ((gapFields t).map (shift (-s)))) div
+      else if !(gapFields t).isEmpty then
+        withDiv s!"PROPFAIL gap field {showRange (gapFields t).head!} at the root of a decode without FillGaps" div
+      else withDiv "OK" div
+    | _ => "BADOP tree"
+  | ["N"] => (match m with | .noValue => "OK" | _ => "DIVERGE model=not-N")
+  | ["P", e] =>
+    let div := match m with | .panic me => (if C04Tree.parseErr e == some me then "" else "model=P-other") | _ => "model=not-P"
+    if e == "io" then withDiv "PROPFAIL an IOError panic escaped decode(): FillGaps could not read a gap (gap outside the section)" div
+    else if e == "de" then withDiv "OK" div
+    else "BADOP obs"
+  | _ => "BADOP obs"
+
 def stepC04 (op obs : String) : String :=
   match stripNotes (words op) with
+  | "prog" :: rest =>
+    match C04Tree.parseProg rest with
+    | some (cfg, input) => progVerdict cfg input (words obs)
+    | none => "BADOP prog"
   | "gaps" :: t :: rs =>
     match parseRange t, parseRanges rs, parseRanges (words obs) with
     | some total, some rs, some implGaps => gapsVerdict true total rs implGaps
